@@ -64,6 +64,7 @@ func (c *RCase[T]) setRecv(v reflect.Value, ok bool) {
 }
 func (c *SCase[T]) setRecv(reflect.Value, bool) {}
 
+//go:noinline
 func (w *World) isClosed(p unsafe.Pointer) bool {
 	for _, q := range w.closed {
 		if q == p {
@@ -73,12 +74,14 @@ func (w *World) isClosed(p unsafe.Pointer) bool {
 	return false
 }
 
+//go:noinline
 func (w *World) markClosed(p unsafe.Pointer, ch interface{}) {
 	w.closed = append(w.closed, p)
 	w.keep = append(w.keep, ch)
 }
 
 // partner finds a parked task with a matching arm on an unbuffered channel.
+//go:noinline
 func partner(w *World, self *Task, p unsafe.Pointer, wantSend bool) (*Task, int) {
 	for _, t := range w.tasks {
 		if t == self || t.done || t.op == nil || t.resolved {
@@ -119,9 +122,8 @@ func (c *RCase[T]) fire(w *World, self *Task) {
 		return
 	}
 	t, i := partner(w, self, c.chanPtr(), true)
-	RaceAcquire(c.chanPtr())
+	RaceAcquire(unsafe.Pointer(&t.op.sync)) // the sender's park happens-before this receive
 	c.give(t.op.cases[i].take(), true)
-	RaceRelease(c.chanPtr())
 	resolve(t, i)
 }
 
@@ -152,21 +154,22 @@ func (c *SCase[T]) fire(w *World, self *Task) {
 		return
 	}
 	t, i := partner(w, self, c.chanPtr(), false)
-	RaceAcquire(c.chanPtr())
-	RaceRelease(c.chanPtr())
+	RaceAcquire(unsafe.Pointer(&t.op.sync)) // the receiver's park happens-before the completion of this send
 	t.op.cases[i].give(c.v, true)
 	resolve(t, i)
 }
 
 // resolve completes the partner's operation; the partner resumes with a
 // pseudo-operation that is always ready and selects arm idx.
+//go:noinline
 func resolve(t *Task, idx int) {
 	t.resolved = true
 	chp := t.op.cases[idx].chanPtr()
+	old := t.op
+	RaceRelease(unsafe.Pointer(&old.sync)) // this operation happens-before the partner's resumption
 	t.op = &Op{Desc: "rendezvous-resume", Ready: func() []int { return []int{idx} }, Fire: func(int) {
 		t.resolved = false
-		RaceAcquire(chp)
-		RaceRelease(chp)
+		RaceAcquire(unsafe.Pointer(&old.sync))
 	}, Objs: func(int) ([]unsafe.Pointer, []unsafe.Pointer, *Task) {
 		return []unsafe.Pointer{chp}, nil, nil
 	}}
@@ -230,6 +233,7 @@ func Select(hasDefault bool, cases ...Case) int {
 }
 
 // isUnbufferedIdle reports whether firing c must be a rendezvous.
+//go:noinline
 func isUnbufferedIdle(c Case) bool {
 	type capper interface{ chanCap() int }
 	if cc, ok := c.(capper); ok {
